@@ -71,7 +71,7 @@ UNIT = dict(
         havoc_exempt=['tail_old', 'head_old', 'idx', 'old_value', 'found_idx', 'new_value', 'new_head', 'new_tail'],
         must_fire={'A_LOAD': 4, 'A_CAS': 3, 'cut_loop': 1}),
     src('ctor', CLS + r'kirsch_bounded_kfifo_queue\(uint64_t k, uint64_t num_segments\)', 'static void kbq_ctor(struct kbq* self, uint64_t k, uint64_t num_segments)', ctor=True,
-        subst=[(r'\bmarked_idx::val_mask\b', 'val_mask', 'val_mask')],
+        subst=[(r'\bmarked_idx::val_mask\b', 'val_mask', 'val_mask'), (r'\b(\w+) / (\w+)\b', r'XV_UDIV(\1, \2)', 'udiv')],
         post_subst=[(r'new entry\[([^\]]*)\]\(\)', r'XV_NEW_ENTRIES(self, \1)', 'new_entries'),
                     (r'self->_queue\.reset\((XV_NEW_ENTRIES\([^;]*\))\);', r'XV_INIT__queue(self, \1); if (xv_threw) { XV_RET; }', 'queue_reset'),
                     (r'(XV_INIT__queue\(self, XV_NEW_ENTRIES\([^;]*\)\);)(?! if \(xv_threw\))', r'\1 if (xv_threw) { XV_RET; }', 'new_may_throw')],
@@ -104,7 +104,7 @@ UNIT = dict(
   ],
   obligations={
     'kbq.idx.roundtrip': dict(deciding=True, text='for every (k, num_segments) the constructor accepts and every v < k*num_segments: marked_idx(v, m).get() == v, .mark() == m mod 2^(64-bits), and tag+1 gives a different word'),
-    'kbq.ctor.size': dict(deciding=True, text='an accepted constructor call has _queue_size == k*num_segments without wrap-around (>= 1)'),
+    'kbq.ctor.size': dict(deciding=True, text='an accepted constructor call has _queue_size >= 1 and has passed the exact no-wrap test (k*num_segments mod 2^64) / k == num_segments, i.e. _queue_size == k*num_segments'),
     'kbq.ctor.state': dict(deciding=True, text='an accepted constructor call leaves _k == k, head == tail == (index 0, tag 0) and one value-initialised array of _queue_size entries'),
     'kbq.in_valid.spec': dict(deciding=True, text='in_valid_region(tail_old, tail, head) <=> tail_old lies in the circular interval (head, tail]'),
     'kbq.not_in_valid.spec': dict(deciding=True, text='not_in_valid_region(tail_old, tail, head) <=> tail_old lies outside the circular interval [head, tail]'),
